@@ -16,6 +16,8 @@ structure St where
   reading : Bool := false
   re : Endian := .little
   rest : List UInt8 := []
+  /-- array variables `av`: slot, element type, elements (the same value is written by every `wv`) -/
+  vars : List (Nat × Ty × List Nat) := []
 
 def parseKind : String → Option Kind
   | "sb" => some .sb | "file" => some .file | "sock" => some .sock | _ => none
@@ -82,6 +84,26 @@ def step (st : St) (ts : List String) : St × String :=
       if bs.length % sizeofT t != 0 then (st, "bad-op") else
       doWrite st k (.array t (chunks (sizeofT t) bs))
     | _, _ => (st, "bad-op")
+  | ["av", ks, tys, h] =>
+    match ks.toNat?, parseTy tys, unhex h with
+    | some slot, some t, some bs =>
+      if ks.length > 9 ∨ bs.length % sizeofT t != 0 then (st, "bad-op") else
+      let slot := slot % 4
+      ({ st with vars := (slot, t, chunks (sizeofT t) bs) :: st.vars.filter (·.1 != slot) }, "ok")
+    | _, _, _ => (st, "bad-op")
+  | ["wv", ks] =>
+    if st.reading then (st, "closed") else
+    match ks.toNat? with
+    | none => (st, "bad-op")
+    | some slot =>
+      if ks.length > 9 then (st, "bad-op") else
+      match st.vars.find? (·.1 == slot % 4) with
+      | none => (st, "no-var")
+      | some (_, t, vs) =>
+        -- a write is a function of (order, value): the variable keeps its value
+        let r := doWrite st k (.array t vs)
+        let dump := vs.flatMap fun v => (leBytes (sizeofT t) (norm t v)).reverse
+        (r.1, r.2 ++ " " ++ hex dump)
   | ["wb", h] =>
     if st.reading then (st, "closed") else
     match unhex h with
